@@ -674,6 +674,10 @@ Definition mon_jstep (st : jstep) : list string :=
     (* the override has expired: sv = what is served now, rl = what was served before the override was set, updated by the requests since *)
     (if sc_pay (c_sched sv) =? sc_pay (c_sched rl) then [] else ["C18:temporary-override-outlived-its-ttl"])
   else if String.eqb path "ttl-set" then []
+  else if String.eqb path "update-during-store-limit-retry" then
+    (* an update accepted while AddStoreLimit waited to retry its failed write: sv = what is served after the retry, rl = what has to be
+       served (the state before plus the update; the joining store's limit is the retry's own change) *)
+    (if conf_eqb sv rl then [] else ["C18:accepted-change-lost-during-store-limit-retry"])
   else if String.eqb path "overlapping-updates" then
     (* two updates were both accepted while they overlapped (the first was held at its write of the config key): a new leader reloads both *)
     (if conf_eqb rl (normalise sv) then [] else ["C18:overlapping-accepted-changes-not-both-reloaded"])
